@@ -649,6 +649,11 @@ func (x *Exec) callInterfaceMethod(call *ast.CallExpr, fn *types.Func, recv Term
 		if c := x.ifaceMethodContract(fn); c != nil {
 			return x.callContract(call, c, fn, &recv, args, st)
 		}
+	} else if lit := isForEachLit(call); lit != nil {
+		x.siteObligations(call, fn, &recv, args, st)
+		r := x.execForEach(call, lit, recv, st)
+		x.noteLastErr(st, fn, r)
+		return r
 	}
 	return x.applyExternal(call, fn, eff, &recv, args, st)
 }
@@ -658,7 +663,7 @@ func isErrorMethod(fn *types.Func) bool {
 }
 
 func isRepoObj(o types.Object) bool {
-	return o.Pkg() != nil && (strings.HasPrefix(o.Pkg().Path(), "github.com/vektra/mockery/v3") || strings.HasPrefix(o.Pkg().Path(), "verifcorpus/"))
+	return o.Pkg() != nil && (strings.HasPrefix(o.Pkg().Path(), "github.com/vektra/mockery/") || strings.HasPrefix(o.Pkg().Path(), "verifcorpus/"))
 }
 
 func (x *Exec) ifaceMethodContract(fn *types.Func) *Contract { return nil }
